@@ -160,7 +160,7 @@ theorem bridge_single {M : Model} {li : LexIn} (h : Agree M li) (hl : LookAgree 
 instance `L` (one per right context of the target state) of the arc there is a root-to-leaf path of the lextree: a root of
 `root[src]` that is `R`, pnodes `qf 1 … qf (n−2)` that are the word-internal instances (`qf x.pos` is the instance `x`), a leaf
 that is `L`, each a child of the one before -/
-theorem bridge_multi {M : Model} {li : LexIn} {tm : Nat → Nat} (h : Agree M li) (hl : LookAgree M li) (htm : SsidTmat li tm)
+theorem bridge_multi {M : Model} {li : LexIn} {tm : Nat → Nat} (h : Agree M li) (hl : LookAgree M li) (htm : SsidTmat li (fsgOf M) tm)
     {i : Nat} {a : Arc} {w : Word} (hx : (i, a, w) ∈ wordArcs M) {p0 p1 : Nat} {rest : List Nat} (hp : w.pron = p0 :: p1 :: rest)
     {insts : List Inst} (hi : instsOfArc M i a w = some insts) :
     ∀ R ∈ insts, R.isRoot = true → ∀ L ∈ insts, L.isLeaf = true →
